@@ -5,7 +5,7 @@
    loop of resolve_container_serial, Option catch, gated resolvers); a schedule is
    the order in which the gates are opened; [run s t = Some r] means the schedule
    lets the request complete (it is fair for t) and r is the response. *)
-From AG Require Import Sched SchedProofs.
+From AG Require Import Sched SchedProofs SchedCheck SchedCheckProofs.
 From Coq Require Import Permutation.
 Open Scope N_scope.
 
@@ -118,3 +118,11 @@ Theorem C04_serial_nonvacuous :
           IStart [PF 24]; IEnd [PF 24]].
 Proof. exact w_serial. Qed.
 Print Assumptions C04_serial_nonvacuous.
+
+(* the test applied to the event logs of the real executors (SchedCheck.check_dsched, stream
+   DSCHED: dynamic executor and derive schema) accepts every log of the model's serial loop *)
+Theorem C04_serial_check_complete : forall kd done cs keys s f n l,
+  Forall2 keyed keys (map all_events cs) ->
+  run_log s (FSeq kd done cs) = (f, n, l) -> serial_keys keys (evs_of l) = true.
+Proof. exact serial_model_passes_check. Qed.
+Print Assumptions C04_serial_check_complete.
